@@ -313,7 +313,7 @@ fn judge_path(cx: &Ctx, path: &std::path::Path, region: Option<&Region>) -> Resu
         if !(v4 && md5_ok == Some(false)) {
             let which: Vec<&str> = s.splitn(3, ':').collect();
             return Err(Fail::new(
-                format!("silent-corruption:{kind}:{rclass}:{}:{}", which[0], which[1]),
+                format!("silent-corruption:{kind}:{rclass}:{}:{}", which[1], which[0]),
                 format!(
                     "a change inside {} leaves {} readable with different content and every verify operation succeeds",
                     region.map(|r| r.name.as_str()).unwrap_or("?"),
